@@ -136,8 +136,11 @@ def parse_sanitizer(stderr):
         m = re.search(r"runtime error: ([^\n]+)", stderr)
         if m:
             kind = "ubsan"
-    frames = re.findall(r"#\d+ 0x[0-9a-f]+ in (\S+) (/repo/\S+?):(\d+)", stderr)
-    top = [f"{fn}" for fn, path, ln in frames[:4]]
+    # only the stack of the faulting access (up to the first blank line / "freed by")
+    first = re.split(r"\n\s*\n|freed by|previously allocated|is located", stderr, 1)[0]
+    frames = re.findall(r"#\d+ 0x[0-9a-f]+ in (\S+) (/\S+?):(\d+)", first)
+    frames = [f for f in frames if f[1].startswith("/repo/")]
+    top = [f"{fn}" for fn, path, ln in frames[:8]]
     site = ""
     if kind == "ubsan":
         m2 = re.search(r"(/repo/\S+?):(\d+):\d+: runtime error: ([^\n]+)", stderr)
